@@ -143,3 +143,6 @@ def fill(ENV):
     from . import cryptomodel
     ENV['Crypto.Hash'] = cryptomodel.hash_env
     ENV['Crypto.Cipher'] = cryptomodel.cipher_env
+    from . import urlmodel
+    ENV['urllib'] = urlmodel.urllib_env
+    ENV['urllib.parse'] = urlmodel.parse_env
